@@ -13,6 +13,14 @@ THEOREMS = ["Rva.encode_injective", "Rva.memloc_encode_injective", "Rva.value_ta
             "Rva.tags_distinct"]
 
 # programs that exercise every value kind and memory-location kind
+# two functions sharing a tail: nodes of the tail belong to both, and the functions may have
+# different exits (the parallel func_entry / func_exit lists must stay paired)
+SHARED = [
+    "main:\n    li a0, 5\n    jal fn_b\n    jal fn_a\n    li a7, 10\n    ecall\nfn_a:\n    addi a0, a0, 1\n    j shared\nfn_b:\n    beqz a0, shared\n    addi a0, a0, 2\n    ret\nshared:\n    addi a0, a0, 3\n    ret\n",
+    "main:\n    li a0, 5\n    jal fn_b\n    jal fn_a\n    li a7, 10\n    ecall\nfn_b:\n    beqz a0, shared\n    addi a0, a0, 2\n    ret\nfn_a:\n    addi a0, a0, 1\n    j shared\nshared:\n    addi a0, a0, 3\n    ret\n",
+    "main:\n    li a0, 5\n    jal fn_c\n    jal fn_b\n    jal fn_a\n    li a7, 10\n    ecall\nfn_a:\n    addi a0, a0, 1\n    j shared\nfn_b:\n    beqz a0, shared\n    addi a0, a0, 2\n    ret\nfn_c:\n    bnez a0, shared\n    ret\nshared:\n    addi a0, a0, 3\n    ret\n",
+]
+
 KINDS = [
     "main:\n    li t1, 64\n    csrr t0, 64\n    mv a0, t0\n    mv a1, t1\n    li a7, 93\n    ecall\n",
     ".data\nx: .word 5\n.text\nmain:\n    la t0, x\n    lw t1, 4(t0)\n    lw t2, 8(t1)\n    addi sp, sp, -8\n    sw t1, 0(sp)\n    sw a0, 4(sp)\n    lw t3, 4(sp)\n    lw t4, -12(sp)\n    li a7, 10\n    ecall\n",
@@ -29,19 +37,19 @@ def run(res, tier, seed):
     rng = random.Random(seed)
     proof_ok = proof_stage(res, "Rva.Proofs.C19", THEOREMS, extra_modules=["Rva.Proofs.Tables"])
     n = 150 if tier == "quick" else 3000
-    srcs = list(KINDS) + list(CORPUS)
+    srcs = list(KINDS) + list(CORPUS) + SHARED * 6     # exit choice is hash-order dependent: repeat
     for _ in range(n):
         s, _ = prog.program(rng, sloppy=rng.choice([0, 0.2]), multi_ret=False)
         srcs.append(s)
     reqs = [yaml_req(s) for s in srcs]
-    facts_reqs = [f"pipe cfg,facts 1 {hx('m.s')} {hx(s)}" for s in srcs]
     out = run_lines_isolated(RVH_DEBUG, reqs, chunk=50)
-    facts = run_lines_isolated(RVH_DEBUG, facts_reqs, chunk=50)
+    # the `yaml` operation prints the canonical trace of the same graph object it dumps
+    facts = [[l for l in blk if l.startswith(("CFG ", "FACT ", "CFG.FUNC"))] for blk in out]
     first = None
     tags = {}
     dumps = {}
     for s, blk, fb in zip(srcs, out, facts):
-        d = {l.split()[0]: l for l in blk}
+        d = {l.split()[0]: l for l in blk if l.startswith("YAML")}
         if "YAML" in d and "CFGERR" in d["YAML"]:
             continue
         if blk and blk[0].startswith(("CRASH", "HANG", "PANIC")):
